@@ -105,7 +105,7 @@ fn exec_op(pool: &mut Option<Pool<Mgr>>, op: &Op, me: usize) {
             op_release(me);
         }),
         Op::Take => guarded(me, "take", || {
-            op_take(me);
+            op_take(me, pool.as_ref());
         }),
         Op::Retain => {
             if let Some(p) = pool.as_ref() {
